@@ -6,7 +6,7 @@
 From Coq Require Import List Bool Arith ZArith Lia.
 Require Import HT TEL LTLUnique BodyTheoryCore GenPrelude TheoryPrelude FromTheory Leaf_theory FullOps.
 Require BodyTheoryFull.
-Require Import FormPrelude FromBodyForm BodyForm TheoryBuild TheoryLink Leaf_dynamic.
+Require Import FormPrelude FromBodyForm BodyForm TheoryBuild TheoryLink Leaf_dynamic TheoryAtomsProofs.
 
 (* In every state reachable with an empty work list, for every assignment v of the auxiliary atoms that violates no
    emitted constraint and gives unresolved placeholders their external value, the literal cached for formula f at
@@ -92,6 +92,20 @@ Proof.
     try (apply andb_true_iff in To as [T1 T2]); auto; try (rewrite IHx, IHy by assumption; reflexivity); rewrite IHl, IHr by assumption; reflexivity.
 Qed.
 
+(* the ground THEORY ATOMS themselves (what the rest of the program sees): Theory.translate ties the literal of every ground &tel / &del atom to the
+   literal of its (formula, state) pair; the ties of one more call exist (every new root is cached), old ties stay valid, and in every assignment that
+   violates no constraint and respects the ties every theory atom ever grounded has the value of its formula at its state at the CURRENT horizon *)
+Theorem C03_theory_atoms_are_tied : forall (A : Type) (D : forall a b : A, {a = b} + {a <> b}) (fuel h : nat) (s : F.st A) (roots : list (nat * F.bf A)) (s' : F.st A)
+  (ids : list (nat * (nat * F.bf A))) (ts : list (tie A)),
+  F.Inv A D h nil s -> (forall p, In p (F.pending A s) -> fst p <= S h) -> (forall p, In p roots -> fst p <= S h) -> (forall r, In r ids -> In (snd r) roots) ->
+  F.theory_translate A D fuel (S h) roots s = Some s' -> TInv A D s ts ->
+  exists new, link A D s' ids = Some new /\ TInv A D s' (new ++ ts) /\ map (t_atom A) new = map fst ids.
+Proof. exact link_step. Qed.
+Theorem C03_theory_atoms_have_the_value_of_their_formula : forall (A : Type) (D : forall a b : A, {a = b} + {a <> b}) (h : nat) (s : F.st A) (ts : list (tie A)),
+  F.Inv A D h nil s -> F.Wf A D s -> TInv A D s ts ->
+  forall (T : F.trace A) (v tv : nat -> bool), F.ok_cls A T v s -> F.ok_ext A D v s -> ok_ties A T v tv ts ->
+  forall x, In x ts -> tv (t_atom A x) = F.lsat A h T (t_f A x) (t_k A x).
+Proof. exact theory_atom_value. Qed.
 (* the LTLf semantics of the model's formula objects is the semantics of the specification (what the extracted oracle evaluates) *)
 Theorem C03_model_semantics_is_the_specification : forall (A : Type) (h : nat) (T : TEL.trace A) (f : F.bf A), tel_only A f = true -> forall (k : nat),
   F.lsat A h T f k = TEL.lsat A h T (embf A f) k.
@@ -172,6 +186,8 @@ Print Assumptions C03_full_step.
 Print Assumptions C03_full_first_horizon.
 Print Assumptions C03_full_definitional.
 Print Assumptions C03_full_initial_state.
+Print Assumptions C03_theory_atoms_are_tied.
+Print Assumptions C03_theory_atoms_have_the_value_of_their_formula.
 Print Assumptions C03_tel_formulas_are_in_normal_form.
 Print Assumptions C03_model_semantics_is_the_specification.
 Print Assumptions C03_built_objects_have_the_table_semantics.
